@@ -205,15 +205,19 @@ theorem C06_index_presence (p : OldNode → Bool) (nodes : List OldNode) (mw : N
     subst this; exact ⟨hj, hp⟩
   · rintro ⟨hj, hp⟩; exact ⟨id, hj, by omega, hp⟩
 
-/-- The two accessor lemmas on the sections of a complete three-section stream, for every variant
-    and every key list: the 16-bit hypothesis of `C06_bm16` holds for every trie `buildOld`
-    builds; the step hypothesis is the layout's own limit (a `uint16` step). -/
-theorem C06_sections_read (vr : Variant) (keys vals : List Bytes) (ch st lv : Array32Msg)
-    (h : sections3 vr keys vals = .ok (ch, st, lv)) :
+/-- The accessor lemmas on the sections of a complete three-section stream, for every variant
+    and every key list with one value of width `w` per key: the 16-bit hypothesis of `C06_bm16`
+    and the index range of the leaf values hold for every trie `buildOld` builds; the step
+    hypothesis is the layout's own limit (a `uint16` step). -/
+theorem C06_sections_read (vr : Variant) (keys vals : List Bytes) (w : Nat) (ch st lv : Array32Msg)
+    (h : sections3 vr keys vals = .ok (ch, st, lv))
+    (hlen : vals.length = keys.length) (hw : ∀ v ∈ vals, v.length = w) :
     ∃ nodes : Array OldNode, buildOld keys vr.leafSteps = .ok nodes ∧
       ∀ id (hid : id < nodes.toList.length),
         (nodes.toList[id].step < 65536 → getStep st id = .ok (nodes.toList[id].step - 1)) ∧
-        (nodes.toList[id].inner = true → getBM16Child ch id = .ok (nodes.toList[id].bm * 2)) := by
+        (nodes.toList[id].inner = true → getBM16Child ch id = .ok (nodes.toList[id].bm * 2)) ∧
+        (∀ k, nodes.toList[id].leaf = some k →
+          k < keys.length ∧ getBytes lv id w = .ok (some (vals.getD k []))) := by
   unfold sections3 at h
   cases hb : buildOld keys vr.leafSteps with
   | error e => rw [hb] at h; cases h
@@ -221,9 +225,21 @@ theorem C06_sections_read (vr : Variant) (keys vals : List Bytes) (ch st lv : Ar
     rw [hb] at h
     simp only [bind, Except.bind, pure, Except.pure] at h
     cases h
-    refine ⟨nodes, rfl, fun id hid => ⟨fun hlim => ?_, fun hin => ?_⟩⟩
+    have hlt := buildOld_leaf_lt keys vr.leafSteps nodes hb
+    refine ⟨nodes, rfl, fun id hid => ⟨fun hlim => ?_, fun hin => ?_, fun k hk => ?_⟩⟩
     · exact C06_step_rebase nodes.toList _ id hid hlim
     · exact C06_bm16 vr nodes.toList _ id hid hin (buildOld_bm_lt keys vr.leafSteps nodes hb)
+    · have hk' := hlt _ (List.getElem_mem hid) k hk
+      refine ⟨hk', ?_⟩
+      have hget : ∀ j, j < keys.length → vals.toArray.getD j [] = vals.getD j [] := by
+        intro j _
+        rw [Array.getD_eq_getD_getElem?, List.getElem?_toArray, List.getD_eq_getElem?_getD]
+      rw [← hget k hk']
+      apply C06_leaf_value nodes.toList vals.toArray w id k hid hk
+      intro n hn j hj
+      have hj' := hlt n hn j hj
+      rw [hget j hj', List.getD_eq_getElem?_getD, List.getElem?_eq_getElem (by omega)]
+      exact hw _ (List.getElem_mem _)
 
 /-- The reconstructed three-section writers are total on every key list `NewSlimTrie` accepts
     (strictly ascending): the fuel of the model's breadth-first loop (`2n + 1`) is never exhausted,
